@@ -92,7 +92,7 @@ def check(col, prog, tier, profile, fixture=None):
     fk = util.fkey
     adt = util.need_adt(crate, "Modular")
     col.rule("M1" + sfx, "representation invariant, overflow-freedom, value-preserving casts, congruence — for all M and operands", floor=20 if profile == "dev" else 12)
-    col.rule("M2" + sfx, "operator families, Div = Mul by inv, pow via MulAssign, IO and formatting go through v / new", floor=10)
+    col.rule("M2" + sfx, "operator families, Div = Mul by inv, pow = binary exponentiation over the argument via MulAssign, IO and formatting go through v / new", floor=11)
 
     targets = {}
     for nm in ("new", "ZERO", "ONE"):
@@ -287,6 +287,64 @@ def _families(col, crate, adt, targets, sfx):
         col.obligation(True)
     else:
         col.violation("M2" + sfx, "%s|only-mulassign" % fk(powb), powb.loc(), "pow uses %s; it may only combine values with *=" % sorted(set(bad)))
+        col.obligation(False)
+    # M3: square-and-multiply scheme, the exponent enters the loop unchanged
+    head = list(I.loops)[0] if len(I.loops) == 1 else None
+    ok3 = head is not None
+    why3 = "pow is not a single loop"
+    if ok3:
+        names = powb.local_names()
+        d_l = 2
+        entry = I.loop_entry.get(head, [{}])[0]
+        # the loop variable holding the exponent: the phi tested against 0 in the loop condition
+        exp_l = None
+        for st in I.final_states:
+            for f in st.facts:
+                t = f[1]
+                if isinstance(t, tuple) and t[0] == "bin" and t[1] in ("Ne", "Eq") and t[3] == mk_int(0) and t[2][0] == "phi":
+                    exp_l = t[2][2]
+        res_l = None
+        for st in I.final_states:
+            r = util.ret_term(st)
+            if r[0] == "phi":
+                res_l = r[2]
+        if exp_l is None or res_l is None:
+            ok3, why3 = False, "cannot identify the exponent / result loop variables"
+        else:
+            entries = I.loop_entry.get(head, [{}])
+            bad_e = [en.get(exp_l) for en in entries if en.get(exp_l) != ("param", 2, I.names.get(2))]
+            e0 = bad_e[0] if bad_e else entry.get(exp_l)
+            bad_r = [en.get(res_l) for en in entries if not (en.get(res_l) is not None and (en.get(res_l)[0] == "assoc" and en.get(res_l)[2] == "ONE" or (en.get(res_l)[0] == "agg" and en.get(res_l)[2] == (mk_int(1),))))]
+            r0 = bad_r[0] if bad_r else entry.get(res_l)
+            base_l = [l for l, v in entry.items() if isinstance(v, tuple) and v and v[0] == "load" and v[2] == ("deref", ("param", 1, I.names.get(1)))]
+            if e0 != ("param", 2, I.names.get(2)):
+                ok3, why3 = False, "the exponent entering the loop is %s, not the argument itself (the exponent is pre-processed before the square-and-multiply loop)" % tstr(e0)
+            elif not (r0 is not None and r0[0] == "assoc" and r0[2] == "ONE" or (r0 is not None and r0[0] == "agg" and r0[2] == (mk_int(1),))):
+                ok3, why3 = False, "the accumulator does not start at ONE (%s)" % tstr(r0)
+            elif len(base_l) != 1:
+                ok3, why3 = False, "the running square does not start at *self"
+            else:
+                a_l = base_l[0]
+                ph = lambda l: ("phi", head, l)
+                for st in I.backedge_states.get(head, []):
+                    evs = [e for e in st.event_list() if e.kind == "call" and (e.fn.get("resolved") or e.fn).get("def") == mulas.key]
+                    odd = None
+                    for f in st.facts:
+                        t = f[1]
+                        if f[0] == "eq" and isinstance(t, tuple) and t[0] == "bin" and t[1] == "Eq" and t[3] == mk_int(1) and t[2] == ("bin", "Rem", ph(exp_l), mk_int(2)):
+                            odd = bool(f[2])
+                        if f[0] == "eq" and isinstance(t, tuple) and t[0] == "bin" and t[1] in ("Ne", "Eq") and t[3] == mk_int(0) and t[2] in (("bin", "Rem", ph(exp_l), mk_int(2)), ("bin", "BitAnd", ph(exp_l), mk_int(1))):
+                            odd = (t[1] == "Ne") == bool(f[2])
+                    want = ([(("ref", ("local", res_l)), ph(a_l))] if odd else []) + [(("ref", ("local", a_l)), ph(a_l))]
+                    got = [(e.args[0], e.args[1]) for e in evs]
+                    halves = st.env.get(exp_l) in (("bin", "Div", ph(exp_l), mk_int(2)), ("bin", "Shr", ph(exp_l), mk_int(1)))
+                    if odd is None or got != want or not halves:
+                        ok3, why3 = False, "loop body is not `if d odd { res *= a }; a *= a; d /= 2` (odd=%s, multiplications=%s, d'=%s)" % (odd, [(tstr(x), tstr(y)) for x, y in got], tstr(st.env.get(exp_l)))
+    if ok3:
+        col.ok("M2" + sfx, powb.loc(), "%s|square-and-multiply" % fk(powb), "res = ONE, a = *self, d = argument; loop: if d odd { res *= a }; a *= a; d /= 2 while d != 0")
+        col.obligation(True)
+    else:
+        col.violation("M2" + sfx, "%s|square-and-multiply" % fk(powb), powb.loc(), "pow is not plain binary exponentiation over the argument exponent: %s — for composite moduli (or exponents >= M) the result is then not the modular power" % why3)
         col.obligation(False)
     # IO and formatting
     rd = util.need_body(crate, "<Modular<M> as rlib_io::Readable>::read")
